@@ -49,6 +49,9 @@ def plan(tier, seed):
                 shards.append(("1d", n, mt, a, b))
         for a, b in E.chunks(729, 30):
             shards.append(("2d", 3, mt, a, b))
+    # a semimetric (no triangle inequality) on two-dimensional count-like data
+    for a, b in E.chunks(729, 30):
+        shards.append(("2d", 3, "bray_curtis", a, b))
     if tier == "quick":
         # five samples, reduced: copies of training samples as queries, forced k = 2, 3
         for a, b in E.chunks(4 ** 5, 32):
